@@ -47,14 +47,14 @@ SelSubSigs(x) == One(BindSigs({1, 2}, {NoLife, 0, 1, 2}, {FE, FS, FT, FAbsent, F
 SelSubs(x) == {<<>>} \cup One(Subs({"rsa", "ecdsa", "elg"}, {0, 1}, {TRUE}, SelSubSigs(x)))
 SelQIdSigs(x) == IdSigs({"pos"}, {0, 1}, {NoLife, 0, 2}, {"absent"}, {FAbsent, FCS, FCSE})
 SelQBases(x) == {Base(p, r, <<Ident("a", <<s>>)>>) : p \in PrimRE(x), r \in {0, 1}, s \in SelQIdSigs(x)}
-SelQSubSigs(x) == One(BindSigs({1, 2}, {NoLife, 0, 1}, {FE, FS, FAbsent})) \cup One(RevSigs({1}))
+SelQSubSigs(x) == One(BindSigs({1, 2}, {NoLife, 0, 1}, {FE, FS, FAbsent})) \cup One(BindSigs({1}, {NoLife}, {FT, FEonly})) \cup One(RevSigs({1}))
 SelQSubs(x) == {<<>>} \cup One(Subs({"rsa", "ecdsa"}, {0, 1}, {TRUE}, SelQSubSigs(x)))
 
 \* ---- slice Sub2: two subkeys (ordering, newest / first, expiry of one of them), plain and flag-less primary -----------
 Sub2IdSigs(x) == IdSigs({"pos"}, {0}, {NoLife, 2}, {"absent"}, {FAbsent, FCS})
 Sub2Bases(x) == {Base(p, 0, <<Ident("a", <<s>>)>>) : p \in PrimRE(x), s \in {q \in Sub2IdSigs(x) : q.l = NoLife \/ ~q.fv}}
 Sub2Sigs(x) == One(BindSigs({1, 2}, {NoLife, 0, 1}, {FE, FS, FT, FAbsent})) \cup One(RevSigs({1}))
-Sub2One(x) == Subs({"rsa", "ecdsa", "elg"}, {0, 1}, {TRUE}, Sub2Sigs(x))
+Sub2One(x) == Subs({"rsa"}, {0, 1}, {TRUE}, Sub2Sigs(x)) \cup Subs({"ecdsa", "elg"}, {0}, {TRUE}, Sub2Sigs(x))
 Sub2Subs(x) == Two(Sub2One(x), Sub2One(x))
 Sub2QBases(x) == {Base(Prim("rsa", 0, TRUE), 0, <<Ident("a", <<s>>)>>) : s \in IdSigs({"pos"}, {0}, {NoLife}, {"absent"}, {FAbsent, FCS})}
 Sub2QSigs(x) == One(BindSigs({1, 2}, {NoLife, 1}, {FE, FS})) \cup One(RevSigs({1}))
